@@ -5,7 +5,7 @@ import numpy as np
 import gens, ragidx
 
 EXTRA_READS = ["repr", "str", "iter", "ravel", "size", "shape", "tolist", "index", "ufunc", "reduce", "nonzero", "equals_self",
-               "col_counts", "sum0", "mean0", "colvals", "max", "cumsum", "sort", "unique", "astype", "padded", "lengths"]
+               "col_counts", "sum0", "mean0", "colvals", "max", "cumsum", "sort", "unique", "astype", "padded", "lengths", "mean", "allany", "prod", "where"]
 
 
 def gen_program(rng, n_stmts, max_rows=4, max_len=4, with_assign=True, chain=False):
@@ -56,7 +56,14 @@ def gen_program(rng, n_stmts, max_rows=4, max_len=4, with_assign=True, chain=Fal
                 # a[...] / a[()] are whole-array ALIASES by design (statement `alias`); a selection of all rows is a[:]
                 r = {"t": "slice", "a": None, "b": None, "k": rng.choice([None, None, -1, 2]) if chain else None}
             c = None
-            if rng.random() < (0.3 if chain else 0.6):
+            if rng.random() < 0.08:
+                # a two-slice selection that keeps every row and every column, in one of its many spellings (a[:, :], a[0:n, 0:],
+                # a[-n:, ::1]): still a selection with its own cells, not an alias
+                r = rng.choice([{"t": "slice", "a": None, "b": None, "k": None}, {"t": "slice", "a": 0, "b": n, "k": None},
+                                {"t": "slice", "a": -n if n else None, "b": None, "k": 1}])
+                c = rng.choice([{"t": "slice", "a": None, "b": None, "k": None}, {"t": "slice", "a": 0, "b": None, "k": None},
+                                {"t": "slice", "a": None, "b": None, "k": 1}, {"t": "slice", "a": 0, "b": m + 1, "k": 1}])
+            elif rng.random() < (0.3 if chain else 0.6):
                 c = ragidx.colsel_random(m, rng)
                 if c["t"] == "int":
                     c = {"t": "slice", "a": c["i"], "b": None, "k": rng.choice([None, 1, -1, 2])}
@@ -287,6 +294,10 @@ def run_real(prog, extra_reads=None, variant=0):
             elif kind == "astype": a.astype(a.dtype); a.astype(float)
             elif kind == "padded": a.as_padded_matrix()
             elif kind == "lengths": a.lengths; a.shape
+            elif kind == "mean": a.mean(axis=-1); np.mean(a, axis=-1); (a * 2).mean(axis=-1)
+            elif kind == "allany": a.all(axis=-1); a.any(axis=-1); (a > 3).any(axis=-1)
+            elif kind == "prod": a.prod(axis=-1); a.min(axis=-1) if a.size else None
+            elif kind == "where": np.where(a > 3, a, 0); a[a > 3]
         except Exception:
             pass
     for pos, st in enumerate(prog):
